@@ -3,18 +3,33 @@
 #include "base64.h"
 #include "cry.h"
 #include <cstddef>
+#include <cstring>
+#include <string>
 #define VF extern "C" __attribute__((noinline, used))
 int wencry_main(int argc, char *argv[]);
-extern char fout[128];
+bool parseOpts(char c, vpak_t *res);
 VF int vf_main(int argc, char **argv) { return wencry_main(argc, argv); }
 VF u8_t *vf_get_v_opt(int argc, char **argv) { return get_v_opt(argc, argv); }
-VF char *vf_fout(void) { return fout; }
-VF u32_t vf_fout_size(void) { return sizeof(fout); }
+VF u32_t vf_parseopts(int c, u8_t *res) { return parseOpts((char)c, (vpak_t *)res) ? 1u : 0u; }
+VF u8_t *vf_pak_new(void)
+{
+  vpak_t *p = new vpak_t;
+  memset(p->buf, 0, sizeof p->buf);
+  return p->buf;
+}
+VF void vf_pak_set(u8_t *v, FILE *fp, FILE *out, u8_t *key, u64_t size, int mode, int ctype, int htype, int no_echo)
+{
+  vpak_t *p = (vpak_t *)v;
+  p->fp = fp; p->out = out; p->key = key; p->size = size; p->mode = (char)mode; p->ctype = (char)ctype; p->htype = (char)htype; p->no_echo = no_echo != 0;
+}
 VF FILE *vf_pak_fp(u8_t *v) { return ((vpak_t *)v)->fp; }
 VF FILE *vf_pak_out(u8_t *v) { return ((vpak_t *)v)->out; }
 VF u8_t *vf_pak_key(u8_t *v) { return ((vpak_t *)v)->key; }
+VF u64_t vf_pak_size(u8_t *v) { return ((vpak_t *)v)->size; }
 VF int vf_pak_mode(u8_t *v) { return ((vpak_t *)v)->mode; }
 VF int vf_pak_ctype(u8_t *v) { return ((vpak_t *)v)->ctype; }
 VF int vf_pak_htype(u8_t *v) { return ((vpak_t *)v)->htype; }
-VF u32_t vf_rc_resultprint_off(void) { return (u32_t)offsetof(runcrypt, resultprint); }
+VF int vf_pak_noecho(u8_t *v) { return ((vpak_t *)v)->no_echo ? 1 : 0; }
 VF u8_t *vf_pak_rbuf(u8_t *v) { return ((vpak_t *)v)->r_buf; }
+VF u32_t vf_rc_resultprint_off(void) { return (u32_t)offsetof(runcrypt, resultprint); }
+VF u32_t vf_rc_sizeof(void) { return (u32_t)sizeof(runcrypt); }
